@@ -1,6 +1,6 @@
 (* C01 — exported theorems only: each is closed by [exact] and followed by Print Assumptions. *)
 From Coq Require Import List ZArith Bool.
-From Verif Require Import Lib.Vec2 C01.Model C01.Spec C01.Proofs_Base C01.Proofs_Unique C01.Proofs_Reset C01.Proofs_Main.
+From Verif Require Import Lib.Vec2 Lib.Interleave C01.Model C01.Spec C01.Proofs_Base C01.Proofs_Unique C01.Proofs_Reset C01.Proofs_Main C01.Proofs_Conc.
 Import ListNotations.
 Open Scope Z_scope.
 
@@ -55,6 +55,29 @@ Theorem c01_figures_determined_by_objects : forall s1 s2,
 Proof. exact figures_determined. Qed.
 Print Assumptions c01_figures_determined_by_objects.
 
+(* ---------- concurrency ---------- *)
+
+(* the atomic sections of a pod handler, run one after the other, are the handler *)
+Theorem c01_sections_refine : forall s o,
+  match o with
+  | OpPodAdd _ _ | OpPodUpdate _ _ _ _ | OpPodDelete _ _ => exec act s (sections s o) = step s o
+  | _ => True
+  end.
+Proof. exact sections_refine. Qed.
+Print Assumptions c01_sections_refine.
+
+(* handlers for pairwise distinct pods that run concurrently (they only hold the read side of
+   hierarchyUpdateLock): EVERY interleaving of their atomic sections, from a consistent state, ends
+   in a consistent state whose figures equal the from-scratch recomputation *)
+Theorem c01_any_interleaving : forall s0 ops l,
+  Inv2 s0 ->
+  (forall o, In o ops -> rl_op o /\ wf_op s0 o = true) ->
+  NoDup (map op_pod ops) ->
+  interleaving (map (sections s0) ops) l ->
+  Inv2 (exec act s0 l) /\ state_code (exec act s0 l) = 0.
+Proof. exact any_interleaving. Qed.
+Print Assumptions c01_any_interleaving.
+
 (* ---------- non-vacuity: a history that obeys the discipline and uses every operation ---------- *)
 
 Definition ex_pod (id c m : Z) (np bound : bool) : pod := mkPod id (c, m) np bound false.
@@ -87,3 +110,15 @@ Example c01_example_figures :
   let s := run (init (1000, 1000) (1000, 1000)) (firstn 15 ex_history) in
   (r_req (st_r s 6), r_creq (st_r s 3), u_used (st_u s 6)) = ((14, 10), (10, 6), (13, 6)).
 Proof. vm_compute. reflexivity. Qed.
+
+(* a genuine interleaving of three concurrent handlers (add, update with quota change, delete) *)
+Definition ex_s0 : state := run (init (1000, 1000) (1000, 1000)) (firstn 11 ex_history).
+Definition ex_conc_ops : list op :=
+  [ OpPodAdd 5 (ex_pod 7 4 4 false true);
+    OpPodUpdate 5 4 (ex_pod 1 9 2 true true) (ex_pod 1 9 2 true true);
+    OpPodDelete 5 (ex_pod 2 3 3 true true) ].
+
+Example c01_conc_nonvacuous :
+  forallb (wf_op ex_s0) ex_conc_ops = true /\ map op_pod ex_conc_ops = [7; 1; 2] /\
+  map (@length action) (map (sections ex_s0) ex_conc_ops) = [4; 6; 3]%nat.
+Proof. vm_compute. repeat split; reflexivity. Qed.
